@@ -114,7 +114,7 @@ func runNet(s *vsimcore.Sim, p vsimcore.Params) vsimcore.RunInfo {
 		cfg.netRecover = s.Pct("recover", 75)
 		cfg.byzProposals = cfg.nByz > 0 && s.Pct("byz-proposals", 60)
 	}
-	if p.Str("pace", "") == "calm" {
+	if pace := p.Str("pace", ""); pace == "calm" || (pace == "mixed" && s.Pct("calm-pace", 70)) {
 		// fault rates at which most runs make real progress between faults: a round of six nodes with
 		// parked store writes is about a thousand scheduler steps, so "per thousand steps" is "per round"
 		if cfg.rEarlyTimer > 0 {
